@@ -1,6 +1,7 @@
 /- C09 — Float instantiation: `_uinterpolate` (FLAT_FWD_RATES branch, as coded) and the kernels. -/
 import FinVerif.Model.C09
 import FinVerif.Model.C09Boot
+import FinVerif.Model.C09Fast
 
 namespace FinVerif.Model.C09F
 open FinVerif.Model.C09
@@ -76,5 +77,15 @@ where
   stepObjectiveF (obj : List Float → List Float → Contract Float → Float) (s : List Float × List Float)
       (c : Contract Float) : Float → Float :=
     fun q => obj (s.1 ++ [c.tmat]) (s.2 ++ [q]) c
+
+/-- `CDS.value_fast_approx` → [full_pv, clean_pv, credit01, ir01] -/
+def fastF (teff tmat r spread rcurve rcon cpn notional acc : Float) (long : Bool) : List Float :=
+  let v := valueFastApprox opsF teff tmat r spread rcurve rcon cpn notional acc long
+  [v.1, v.2.1, v.2.2.1, v.2.2.2]
+
+/-- `CDSCurve.survival_prob(list of times)` with the curve's `interp_method` (C02's `_uinterpolate` model, all methods it
+has a branch for) -/
+def survF (method : Int) (ts vs : List Float) (t : Array Float) : List Float :=
+  (survivalProbs (fun x => match FinVerif.Model.C02.uinterp method ts vs x with | .ok v => v | .error _ => nanF) t).toList
 
 end FinVerif.Model.C09F
